@@ -309,13 +309,72 @@ def groups(tier):
     return gs
 
 
+def bounded_assigned_segments(seed, n):
+    """Segment.__setitem__ is part of the public API ("set the i point of the segment"): a segment one of whose end points was assigned
+    answers membership / containment questions like the segment freshly built from its end points"""
+    from fractions import Fraction as Fr
+    from g3dvc import oracle as O
+    from g3dvc import catalogue as K
+    from g3dvc import bounded as B
+    from g3dvc.engine import load_repo
+    g = load_repo()
+    acc = B.Acc()
+    rng = K.make_rng(seed + 55)
+    num = lambda t: [O.to_number(c, "float") for c in t]
+    for it in range(n):
+        (sg,) = list(K.flat_objects("Segment", rng, 1))
+        R, t, k = K.random_pose(rng)
+        if it % 3:
+            sg = K.transform(sg, R, t, k)
+        a, b = sg[1], sg[2]
+        d = K.lattice_dir(rng)
+        c = O.add(a, d) if it % 2 else O.add(b, d)
+        idx = 1 if it % 2 else 0
+        new = ("Segment", a, c) if idx == 1 else ("Segment", c, b)
+        if new[1] == new[2] or O.affine_rank([a, b, c]) < 2:
+            acc.skipped += 1
+            continue
+        klass = "end point %d assigned" % idx
+        acc.case(klass)
+        case = dict(segment=B.ser(sg), index=idx, value=B.ser(("Point", c)))
+        try:
+            s_ = g.Segment(g.Point(*num(a)), g.Point(*num(b)))
+            s_[idx] = g.Point(*num(c))
+            fresh = O.to_lib(new, "float")
+        except Exception as e:
+            acc.fail(klass, "construction / assignment raised %r" % (e,), case)
+            continue
+        mid_new = tuple((x + y) / 2 for x, y in zip(new[1], new[2]))
+        mid_old = tuple((x + y) / 2 for x, y in zip(a, b))
+        for q in (mid_new, mid_old, new[1], new[2], O.add(mid_new, d)):
+            exp = O.contains(new, q)
+            qp = g.Point(*num(q))
+            got = B._call(lambda: qp in s_)
+            if got[0] == "exc" or bool(got[1]) != exp:
+                acc.fail(klass, "after s[%d] = p: Point %s in s is %r, exact containment in the segment between its end points %r" % (idx, [float(x) for x in q], got[1], exp), case)
+                break
+        half = ("Segment", mid_new, new[2])
+        got = B._call(lambda: O.to_lib(half, "float") in s_)
+        if got[0] == "exc" or got[1] is not True:
+            acc.fail(klass, "after s[%d] = p: the half of the segment between its end points is not contained in it (%r)" % (idx, got[1]), case)
+        eq = B._call(lambda: (s_ == fresh, hash(s_) == hash(fresh)))
+        if eq[0] == "exc" or eq[1] != (True, True):
+            acc.fail(klass, "after s[%d] = p: == / hash against the freshly built segment: %r" % (idx, eq[1]), case)
+        acc.sample(dict(klass=klass, **case))
+    return acc.result()
+
+
 def bounded(tier, seed):
     from g3dvc import bounded as B
-    return [("membership catalogue", B.membership, (seed, 48 if tier == "quick" else 600), 3000)]
+    return [("membership catalogue", B.membership, (seed, 48 if tier == "quick" else 600), 3000),
+            ("segments with an assigned end point", bounded_assigned_segments, (seed, 60 if tier == "quick" else 600), 900)]
 
 
 def replay_case(case):
     from g3dvc import bounded as B
+    if "index" in (case or {}):
+        r = bounded_assigned_segments(0, 60)
+        return dict(fails=bool(r["failures"]), observed=[f["what"] for f in r["failures"][:2]])
     return B.replay_membership(case)
 
 
